@@ -505,6 +505,9 @@ Theorem count_scalar_list q : count_default_follows_query = true -> q_window q =
   q_aggregate ACount None q = Ok (py_aggregate ACount (q_list q)).
 Proof. intros Hc Hw. apply aggregate_list; [assumption|]. unfold aggr_distinct. now rewrite Hc. Qed.
 
+Theorem count_scalar_list_now q : q_window q = no_window -> q_aggregate ACount None q = Ok (py_aggregate ACount (q_list q)).
+Proof. apply count_scalar_list. reflexivity. Qed.
+
 End AggregateProofs.
 
 (* ------------------------------------------------------------------------------------------------ group_concat, count() of tuples *)
